@@ -465,13 +465,20 @@ def forwarded_values(stores: List[Store], names: Iterable[str]):
     return out
 
 
-def cond_equiv(a: Cond, b: Cond, limit: int = 10) -> bool:
+def cond_equiv(a: Cond, b: Cond, limit: int = 10, integer: bool = False) -> bool:
     """propositional equivalence of two conditions over their atomic comparisons (each comparison, oriented, is one propositional variable; `not (x <= y)` and `y < x` are the same
     literal).  Sufficient, not necessary: atoms are treated as independent."""
     atoms: Dict[str, int] = {}
 
     def lit(c: Cond):
         """(atom key, positive?) for a leaf"""
+        if integer and c.kind == "cmp" and len(c.args) == 3 and c.args[1] in ("<", "<=") and isinstance(c.args[0], Poly) and isinstance(c.args[2], Poly):
+            # over the integers (indices, extents):  l < r  is  r - l - 1 >= 0  and  l <= r  is  r - l >= 0 ;  not (p >= 0)  is  -p - 1 >= 0.
+            # One variable per such pair {p, -p - 1}, so that  x <= W - 1,  x < W  and  not (W <= x)  are one literal.
+            l_, op_, r_ = c.args
+            p_ = r_ - l_ - (ONE if op_ == "<" else ZERO)
+            q_ = -p_ - ONE
+            return ((("ge0", repr(p_)), True) if repr(p_) <= repr(q_) else (("ge0", repr(q_)), False))
         n = norm_cond(c)
         if n[0] == "cmp":
             _, l, op, r = n
